@@ -531,7 +531,7 @@ func runC02(c *Ctx) {
 	}
 
 	// ---------------------------------------------------------------- R14
-	c.rule("R14", "a reply that is already delivered wins over the caller's context and over write errors; the reply wait ends when the reader has returned, not when the connection was closed; module-wide: every wait on {context, result} polls the result in its ctx case", 13)
+	c.rule("R14", "a reply that is already delivered wins over the caller's context and over write errors; the reply wait ends when the reader has returned, not when the connection was closed; module-wide: every wait on {context, result} polls the result in its ctx case; the waiting flag has two writers", 15)
 	checkDeliveredReplyWins(c)
 	checkReaderDoneWakesWaiters(c)
 	checkWaitingDeadlineUnconditional(c)
@@ -539,6 +539,7 @@ func runC02(c *Ctx) {
 	checkClaimedReplyDelivered(c)
 	checkCtxCasePollsResult(c)
 	checkCtxResultSelectsPoll(c)
+	checkWaitingFlagWriters(c)
 	checkNoDeadlineAfterRelease(c)
 	if ex := c.fn(relTransport, "TraditionalDnsConn", "exchange"); ex != nil {
 		// D38: a flag set for a query that was answered during its send closes the connection under the next query's reply
